@@ -1106,19 +1106,44 @@ func (fr *Frame) exec(st *State, instr ssa.Instruction) bool {
 	case *ssa.MakeSlice:
 		n := fr.eval(st, x.Len)
 		c := fr.eval(st, x.Cap)
+		et := x.Type().Underlying().(*types.Slice).Elem()
+		mk := func(ni, ci int64) Value {
+			if ni < 0 || ci < ni || ci > 1<<24 {
+				unsupported("MakeSlice with length %d capacity %d at %s", ni, ci, in.posOf(x))
+			}
+			el := make([]Value, ci)
+			z := zeroValue(et)
+			for i := range el {
+				el[i] = z
+			}
+			o := in.newObject(st, &Agg{elems: el}, "makeslice@"+in.posOf(x))
+			return SliceVal{obj: o, off: 0, len: int(ni), cap: int(ci)}
+		}
 		ni, ok1 := n.(int64)
 		ci, ok2 := c.(int64)
-		if !ok1 || !ok2 {
+		switch {
+		case ok1 && ok2:
+			st.regs[x] = mk(ni, ci)
+		case x.Len == x.Cap:
+			// multi-valued (guarded set of concrete) length: one array per alternative
+			st.regs[x] = mapChoice(n, func(a Value) Value {
+				ai, okA := a.(int64)
+				if !okA {
+					unsupported("MakeSlice with symbolic length at %s", in.posOf(x))
+				}
+				return mk(ai, ai)
+			})
+		case ok2:
+			st.regs[x] = mapChoice(n, func(a Value) Value {
+				ai, okA := a.(int64)
+				if !okA {
+					unsupported("MakeSlice with symbolic length at %s", in.posOf(x))
+				}
+				return mk(ai, ci)
+			})
+		default:
 			unsupported("MakeSlice with symbolic length at %s", in.posOf(x))
 		}
-		et := x.Type().Underlying().(*types.Slice).Elem()
-		el := make([]Value, ci)
-		z := zeroValue(et)
-		for i := range el {
-			el[i] = z
-		}
-		o := in.newObject(st, &Agg{elems: el}, "makeslice@"+in.posOf(x))
-		st.regs[x] = SliceVal{obj: o, off: 0, len: int(ni), cap: int(ci)}
 	case *ssa.RunDefers:
 		return true
 	case *ssa.SliceToArrayPointer:
@@ -2245,39 +2270,30 @@ func (fr *Frame) callBuiltin(st *State, name string, args []Value, cc *ssa.CallC
 	case "append":
 		return in.appendChoice(st, args[0], args[1], instr), true
 	case "copy":
-		dst, ok1 := args[0].(SliceVal)
-		if !ok1 {
-			unsupported("copy to %T", args[0])
-		}
-		var src []Value
-		switch s := args[1].(type) {
-		case SliceVal:
-			if s.len > 0 {
-				arr := sliceArr(st.heap, s)
-				src = arr.elems[s.off : s.off+s.len]
+		// destination and / or source may be multi-valued: one guarded copy per consistent pair of alternatives
+		altsOf := func(v Value) []Alt {
+			if ch, ok := v.(*Choice); ok {
+				return ch.alts
 			}
-		case string:
-			src = strCells(s).cells
-		case StrVal:
-			src = s.cells
-		default:
-			unsupported("copy from %T", args[1])
+			return []Alt{{tTrue, v}}
 		}
-		n := dst.len
-		if len(src) < n {
-			n = len(src)
-		}
-		if n > 0 {
-			if dst.obj.pre && in.frozen && !in.monitorOff {
-				in.oblige("frame", "copy into pre-existing object "+dst.obj.label, st.abs(), in.posOf(instr))
+		var res []Alt
+		for _, da := range altsOf(args[0]) {
+			for _, sa := range altsOf(args[1]) {
+				g := And(da.g, sa.g)
+				if g == tFalse {
+					continue
+				}
+				res = append(res, Alt{g, int64(in.copyG(st, g, da.v, sa.v, instr))})
 			}
-			arr := sliceArr(st.heap, dst)
-			out := make([]Value, len(arr.elems))
-			copy(out, arr.elems)
-			copy(out[dst.off:dst.off+n], src[:n])
-			sliceSetArr(st.heap, dst, &Agg{elems: out})
 		}
-		return int64(n), true
+		if len(res) == 0 {
+			unsupported("copy: no consistent alternatives")
+		}
+		if len(res) == 1 {
+			return res[0].v, true
+		}
+		return normChoice(res), true
 	case "println", "print":
 		return nil, true
 	case "min", "max":
@@ -2285,6 +2301,49 @@ func (fr *Frame) callBuiltin(st *State, name string, args []Value, cc *ssa.CallC
 	}
 	unsupported("builtin %s", name)
 	return nil, false
+}
+
+// copyG: copy(dst, src) under guard g (cells are merged with their old values when g is not true)
+func (in *Interp) copyG(st *State, g *Term, dv, sv Value, instr ssa.Instruction) int {
+	dst, ok1 := dv.(SliceVal)
+	if !ok1 {
+		unsupported("copy to %T", dv)
+	}
+	var src []Value
+	switch s := sv.(type) {
+	case SliceVal:
+		if s.len > 0 {
+			arr := sliceArr(st.heap, s)
+			src = arr.elems[s.off : s.off+s.len]
+		}
+	case string:
+		src = strCells(s).cells
+	case StrVal:
+		src = s.cells
+	default:
+		unsupported("copy from %T", sv)
+	}
+	n := dst.len
+	if len(src) < n {
+		n = len(src)
+	}
+	if n > 0 {
+		if dst.obj.pre && in.frozen && !in.monitorOff {
+			in.oblige("frame", "copy into pre-existing object "+dst.obj.label, And(st.abs(), g), in.posOf(instr))
+		}
+		arr := sliceArr(st.heap, dst)
+		out := make([]Value, len(arr.elems))
+		copy(out, arr.elems)
+		for i := 0; i < n; i++ {
+			if g == tTrue {
+				out[dst.off+i] = src[i]
+			} else {
+				out[dst.off+i] = mergeValue(g, src[i], arr.elems[dst.off+i])
+			}
+		}
+		sliceSetArr(st.heap, dst, &Agg{elems: out})
+	}
+	return n
 }
 
 // appendChoice: append where the destination (and/or the source) may be multi-valued. The alternatives are
